@@ -38,6 +38,9 @@ PROPS_PART = {
         verus=[dict(unit=u, which='all') for u in SERVER_UNITS]
               + [dict(unit='reader', which='all', fns=['try_from', 'id', 'qr', 'opcode', 'rd', 'qdcount', 'read_question', 'read_u16']), dict(unit='writer_core', which='all', fns=['new', 'id', 'set_id', 'qr', 'set_qr', 'opcode', 'set_opcode', 'rd', 'set_rd', 'ra', 'set_ra', 'aa', 'set_aa', 'tc', 'set_tc', 'rcode', 'set_rcode', 'write', 'write_u16']), dict(unit='writer_ops', which='all', fns=['add_question']),
                  dict(unit='writer_finish', which='all', fns=['finish', 'finish_with_mac']), dict(unit='name_wire', which='all'), dict(unit='dns_types', which='all')],
+        native=[dict(bin='bnd_server_scan', when='quick',
+                     bound='tier A: 16 opcodes x QR x 3 flag sets x 3 values of the 4th header octet x (2 + 18 x 2) question variants (QDCOUNT 0/1/2; compressed, self-pointing, cut-off, 255/256-octet QNAMEs; QTYPE IXFR/AXFR/MAILB/MAILA/ANY; QCLASS ANY/CH) x 5 additional menus x trailing octet 0/1; tier B: 9 answer/authority layouts (A, OPT, TSIG) x every sequence of <= 2 additional records over a 32-item menu (plain/compressed/overrunning/cut records; OPT version 0/1/255, ext-rcode 0x80, DO, sizes 0..65535, non-root / self-pointing owner, broken option framing, overrunning RDLENGTH; TSIG unknown key/algorithm, class IN, TTL 5 / 0x80000000, malformed, compressed owner) and <= 3 over an 8-item menu x 4 opcode/question variants x count tweaks (ARCOUNT+1/-1/65535, ANCOUNT+1) x trailing octet; tier C: every prefix of the tier-B QUERY messages with <= 1 additional record (9 layouts) or 2 (no answer/authority records); tier D: TSIG key/algorithm names of 3..255 octets x 7 EDNS settings x 2 QNAMEs; tier E: 24 QNAMEs x 12 QTYPEs x 7 QCLASSes x 7 opcodes on a nested 3-class catalog; tier F: 23 names x 11 QTYPEs x 3 EDNS settings on zones with malformed RDATA / without SOA; each over UDP and TCP, exactly-sized and oversized response buffer, up to 9 servers (payload 512/1232/4096/65535, with/without keys, RRL off / never limiting / 1 per s)',
+                     what='no response for QR / short / QDCOUNT>1; otherwise ID and opcode echoed, QR set, RD copied only for QUERY, RA and the reserved bits (incl. AD/CD positions) zero, a parseable single question echoed octet-for-octet - compared with the reference walk srv_ref::expectation')],
         kani=[],
         cex={},
         unverified=['identity of the caller\'s response buffer with the Writer\'s buffer after Writer::new (needs prophecy-frame clauses on the Writer contracts)',
@@ -57,6 +60,9 @@ PROPS_PART = {
         level_note=_SERVER_TRUSTED,
         verus=[dict(unit='server_query_dispatch', which='all'), dict(unit='server_msg', which='all', fns=['handle_message_with_context', 'handle_message']),
                dict(unit='catalog', which='all'), dict(unit='writer_core', which='all', fns=['set_rcode', 'rcode', 'set_aa', 'aa', 'clear_rrs', 'set_tc'])],
+        native=[dict(bin='bnd_server_scan', when='quick',
+                     bound='tier A: 16 opcodes x QR x 3 flag sets x 3 values of the 4th header octet x (2 + 18 x 2) question variants (QDCOUNT 0/1/2; compressed, self-pointing, cut-off, 255/256-octet QNAMEs; QTYPE IXFR/AXFR/MAILB/MAILA/ANY; QCLASS ANY/CH) x 5 additional menus x trailing octet 0/1; tier B: 9 answer/authority layouts (A, OPT, TSIG) x every sequence of <= 2 additional records over a 32-item menu (plain/compressed/overrunning/cut records; OPT version 0/1/255, ext-rcode 0x80, DO, sizes 0..65535, non-root / self-pointing owner, broken option framing, overrunning RDLENGTH; TSIG unknown key/algorithm, class IN, TTL 5 / 0x80000000, malformed, compressed owner) and <= 3 over an 8-item menu x 4 opcode/question variants x count tweaks (ARCOUNT+1/-1/65535, ANCOUNT+1) x trailing octet; tier C: every prefix of the tier-B QUERY messages with <= 1 additional record (9 layouts) or 2 (no answer/authority records); tier D: TSIG key/algorithm names of 3..255 octets x 7 EDNS settings x 2 QNAMEs; tier E: 24 QNAMEs x 12 QTYPEs x 7 QCLASSes x 7 opcodes on a nested 3-class catalog; tier F: 23 names x 11 QTYPEs x 3 EDNS settings on zones with malformed RDATA / without SOA; each over UDP and TCP, exactly-sized and oversized response buffer, up to 9 servers (payload 512/1232/4096/65535, with/without keys, RRL off / never limiting / 1 per s)',
+                     what='NOTIMP for opcodes other than QUERY and QTYPE IXFR/AXFR/MAILB/MAILA / QCLASS ANY regardless of the catalog; REFUSED / SERVFAIL / answered-from-the-zone by the longest-suffix entry of the QCLASS (reference list model; NOERROR vs NXDOMAIN tells which loaded zone answered); AA clear and no records in these error responses')],
         kani=[],
         cex={},
         unverified=['answer / answer_any (what a Loaded zone answers): C05, unit query_answer; its precondition "the zone found by the catalog lookup '
@@ -77,6 +83,9 @@ PROPS_PART = {
         level_note=_SERVER_TRUSTED,
         verus=[dict(unit='server_msg', which='all'), dict(unit='server_query_dispatch', which='all', fns=['handle_query']),
                dict(unit='reader', which='all'), dict(unit='name_wire', which='all'), dict(unit='writer_core', which='all', fns=['set_rcode', 'rcode', 'set_extended_rcode', 'extended_rcode'])],
+        native=[dict(bin='bnd_server_scan', when='quick',
+                     bound='tier A: 16 opcodes x QR x 3 flag sets x 3 values of the 4th header octet x (2 + 18 x 2) question variants (QDCOUNT 0/1/2; compressed, self-pointing, cut-off, 255/256-octet QNAMEs; QTYPE IXFR/AXFR/MAILB/MAILA/ANY; QCLASS ANY/CH) x 5 additional menus x trailing octet 0/1; tier B: 9 answer/authority layouts (A, OPT, TSIG) x every sequence of <= 2 additional records over a 32-item menu (plain/compressed/overrunning/cut records; OPT version 0/1/255, ext-rcode 0x80, DO, sizes 0..65535, non-root / self-pointing owner, broken option framing, overrunning RDLENGTH; TSIG unknown key/algorithm, class IN, TTL 5 / 0x80000000, malformed, compressed owner) and <= 3 over an 8-item menu x 4 opcode/question variants x count tweaks (ARCOUNT+1/-1/65535, ANCOUNT+1) x trailing octet; tier C: every prefix of the tier-B QUERY messages with <= 1 additional record (9 layouts) or 2 (no answer/authority records); tier D: TSIG key/algorithm names of 3..255 octets x 7 EDNS settings x 2 QNAMEs; tier E: 24 QNAMEs x 12 QTYPEs x 7 QCLASSes x 7 opcodes on a nested 3-class catalog; tier F: 23 names x 11 QTYPEs x 3 EDNS settings on zones with malformed RDATA / without SOA; each over UDP and TCP, exactly-sized and oversized response buffer, up to 9 servers (payload 512/1232/4096/65535, with/without keys, RRL off / never limiting / 1 per s)',
+                     what='the reference walk (first problem in message order: unparseable question, undelimitable record, OPT/TSIG outside additional, second OPT, TSIG not last / wrong class / raw TTL != 0 / malformed, trailing octets, QUERY without question) against the real responses: FORMERR with no answer/authority records, never replaced; earlier BADVERS / TSIG errors take precedence')],
         kani=[],
         cex={},
         unverified=['RDATA well-formedness inside rr_at (rdata_read_spec) is the RDATA units\' oracle (C18)'],
@@ -95,6 +104,9 @@ PROPS_PART = {
         level_note=_SERVER_TRUSTED,
         verus=[dict(unit='server_msg', which='all'), dict(unit='writer_core', which='all', fns=['set_edns', 'set_limit', 'set_extended_rcode', 'extended_rcode', 'set_rcode', 'rcode']), dict(unit='writer_finish', which='all', fns=['finish', 'finish_with_mac']),
                dict(unit='reader', which='all', fns=['peek_rr', 'parse', 'take_owner', 'parse_owner', 'raw_ttl', 'rr_type', 'class', 'ttl', 'rdlength', 'skip', 'arcount', 'ancount', 'nscount', 'read_u16', 'read_u32']), dict(unit='dns_types', which='all')],
+        native=[dict(bin='bnd_server_scan', when='quick',
+                     bound='tier A: 16 opcodes x QR x 3 flag sets x 3 values of the 4th header octet x (2 + 18 x 2) question variants (QDCOUNT 0/1/2; compressed, self-pointing, cut-off, 255/256-octet QNAMEs; QTYPE IXFR/AXFR/MAILB/MAILA/ANY; QCLASS ANY/CH) x 5 additional menus x trailing octet 0/1; tier B: 9 answer/authority layouts (A, OPT, TSIG) x every sequence of <= 2 additional records over a 32-item menu (plain/compressed/overrunning/cut records; OPT version 0/1/255, ext-rcode 0x80, DO, sizes 0..65535, non-root / self-pointing owner, broken option framing, overrunning RDLENGTH; TSIG unknown key/algorithm, class IN, TTL 5 / 0x80000000, malformed, compressed owner) and <= 3 over an 8-item menu x 4 opcode/question variants x count tweaks (ARCOUNT+1/-1/65535, ANCOUNT+1) x trailing octet; tier C: every prefix of the tier-B QUERY messages with <= 1 additional record (9 layouts) or 2 (no answer/authority records); tier D: TSIG key/algorithm names of 3..255 octets x 7 EDNS settings x 2 QNAMEs; tier E: 24 QNAMEs x 12 QTYPEs x 7 QCLASSes x 7 opcodes on a nested 3-class catalog; tier F: 23 names x 11 QTYPEs x 3 EDNS settings on zones with malformed RDATA / without SOA; each over UDP and TCP, exactly-sized and oversized response buffer, up to 9 servers (payload 512/1232/4096/65535, with/without keys, RRL off / never limiting / 1 per s)',
+                     what='exactly one OPT (root owner, class = server payload size, version 0) iff an OPT of the additional section was reached (also when it is malformed); BADVERS from the raw TTL field (version bits, also with ext-rcode bit 0x80 set) with no answer records; FORMERR for a non-root / undecodable owner or broken option framing; where both apply either is accepted')],
         kani=[],
         cex={},
         unverified=['Server::new (initial payload size 1232) is not extracted: the invariant edns_udp_payload_size >= 512 is a `requires` (Server::wf) '
@@ -129,6 +141,9 @@ PROPS_PART = {
                  dict(unit='rrl', which='safety'), dict(unit='catalog', which='safety'),
                  dict(unit='rdata', which='safety'), dict(unit='zone', which='safety'), dict(unit='query_helpers', which='safety'),
                  dict(unit='query_addl', which='safety'), dict(unit='query_cname', which='safety'), dict(unit='query_answer', which='safety')],
+        native=[dict(bin='bnd_server_scan', when='quick',
+                     bound='tier A: 16 opcodes x QR x 3 flag sets x 3 values of the 4th header octet x (2 + 18 x 2) question variants (QDCOUNT 0/1/2; compressed, self-pointing, cut-off, 255/256-octet QNAMEs; QTYPE IXFR/AXFR/MAILB/MAILA/ANY; QCLASS ANY/CH) x 5 additional menus x trailing octet 0/1; tier B: 9 answer/authority layouts (A, OPT, TSIG) x every sequence of <= 2 additional records over a 32-item menu (plain/compressed/overrunning/cut records; OPT version 0/1/255, ext-rcode 0x80, DO, sizes 0..65535, non-root / self-pointing owner, broken option framing, overrunning RDLENGTH; TSIG unknown key/algorithm, class IN, TTL 5 / 0x80000000, malformed, compressed owner) and <= 3 over an 8-item menu x 4 opcode/question variants x count tweaks (ARCOUNT+1/-1/65535, ANCOUNT+1) x trailing octet; tier C: every prefix of the tier-B QUERY messages with <= 1 additional record (9 layouts) or 2 (no answer/authority records); tier D: TSIG key/algorithm names of 3..255 octets x 7 EDNS settings x 2 QNAMEs; tier E: 24 QNAMEs x 12 QTYPEs x 7 QCLASSes x 7 opcodes on a nested 3-class catalog; tier F: 23 names x 11 QTYPEs x 3 EDNS settings on zones with malformed RDATA / without SOA; each over UDP and TCP, exactly-sized and oversized response buffer, up to 9 servers (payload 512/1232/4096/65535, with/without keys, RRL off / never limiting / 1 per s)',
+                     what='Server::handle_message of the real crate never panics (catch_unwind) on any request of the enumeration, incl. TSIG error records around the response size limit with and without EDNS, TSIG records of class IN, zones with malformed RDATA or without SOA, and rate limiting that drops/truncates')],
         kani=[],
         cex={},
         unverified=['answer / answer_any and below (query units, C05), zone lookups (zone units, C06), Rrl::process_response body (unit rrl): '
